@@ -375,7 +375,7 @@ PROPS['C08'] = {
                                                    H('c08_show_and_load_next_against_sign_machine', covers=2),
                                                    H('c08_transfer_base_case', covers=2), H('c08_transfer_step_is_inductive', covers=3), H('c08_transfer_final_case', covers=2)] + [H(n, covers=2, tier=('quick' if 'dash_30x7' in n else 'thorough')) for n in C08_SEND if '160x16' not in n], 'timeout': 7200}],
     'tools': [{'kind': 'witness', 'domains': ['e2e'], 'bound': '110000 random walks: 5 addresses x 11 sign types x both flip styles, prior state reached by 0..39 random protocol messages (incl. abandoned transfers, foreign addresses, '
-               'configuration as another / unknown type), page lists of length 0..2, then configure (or configure_if_needed where the property quantifies it) + send_pages + show + load-next + repeated send on the REAL Sign x REAL VirtualSignBus'}],
+               'configuration as another / unknown type), page lists of length 0..2 (every third walk: all pages carry the same id), then configure (or configure_if_needed where the property quantifies it) + send_pages + show + load-next + repeated send on the REAL Sign x REAL VirtualSignBus'}],
     'functions': ['composition of the contracts of flipdot::sign::Sign (C10/C09/C11: the real controller sends exactly what the protocol monitor prescribes) and flipdot_testing::VirtualSign (C13: the real sign step equals spec_step)'],
     'assumptions': [A_TOOLS, A_DEBUG,
                     'C08 is not a contract of one function. What is machine-checked here is the COMPOSITION LEMMA over the two contract vocabularies: the protocol monitor of C10, run as a generator of the prescribed messages, against spec_step of C13, from every abstract sign state satisfying the C13 invariant (all 13 states, any counter / buffer length / recorded type / page count), for all 11 sign types, both flip styles and 0..=2 pages of the sign\'s size. It is complete at that level of abstraction',
@@ -400,7 +400,7 @@ PROPS['C19']['explanation'] = 'All 11 variants by Kani (block length 16, round t
 
 _CTRL_TOOL = [{'kind': 'witness', 'domains': ['controller'], 'bound': '60000 random reply scripts (quick; x10 thorough) against the REAL Sign through its public API only, judged by the same protocol monitor as the Kani proofs '
                '(kani/sign_monitor.rs, included textually): configure, configure_if_needed, shut_down, show, load-next, send_pages with 0..3 pages of 16 / 48 / 96 / 336 bytes and, every 97th script, of 4096 / 65520 / 65536 bytes (the 16-bit offset limit); '
-               'replies biased (75..100 %) towards the ones that let the conversation continue; own/foreign addresses 1:1'}]
+               'replies biased (75..100 %) towards the ones that let the conversation continue; own/foreign addresses 1:1; every second script is followed by a SECOND operation on the same Sign object judged by a fresh monitor (no protocol state may survive between operations); every third page list repeats one page id; bus errors rotate through io::Error(TimedOut), io::Error(Other), FrameError::Io(TimedOut), a string error and an opaque error type'}]
 for _pid in ('C09', 'C10', 'C11'):
     PROPS[_pid]['tools'] = _CTRL_TOOL
     PROPS[_pid]['assumptions'] = PROPS[_pid]['assumptions'] + ['the native oracle run (witness search controller) is a bounded complement: it is independent of private signatures of sign.rs and reaches page sizes up to the 16-bit offset limit, which the Kani shapes do not; it is listed under bounded_standins']
